@@ -492,7 +492,10 @@ def run_one(ch):
         deadline = 200.0
         while net.now < deadline:
             await asyncio.sleep(0.5)
-            if all(c["peer"].eof_seen() or c["peer"].closed for c in conns) and net.now > 2.0:
+            # a peer that half-closed keeps receiving until the server ends the stream;
+            # only a peer that reset the connection has nothing more to wait for
+            if all(c["peer"].eof_seen() or (c["peer"].closed and c["pinfo"]["fault"] in (3, 5))
+                   for c in conns) and net.now > 2.0:
                 break
         await asyncio.sleep(40.0 if any(c["pinfo"]["fault"] == 1 for c in conns) else 3.0)
         for c in conns:
